@@ -346,6 +346,14 @@ def predicate(c, obs):
     short = max(0, minb - t0["lamports"])
     if debit != short:
         return "funder was debited %d lamports, the shortfall is %d (minimum %d, account held %d)" % (debit, short, minb, t0["lamports"])
+    # a funder that is a program-derived address can only sign through its seeds: every CPI that lists it as a signer
+    # carries them (the runtime refuses the instruction otherwise)
+    if p["fkind"] == 1:
+        want_f = R.with_bump(p["fseeds"], p["findf"][1])
+        for cpi in o["log"]:
+            if any(m[0] == 2 and m[1] for m in cpi["metas"]) and want_f not in cpi["seeds"]:
+                return "CPI %d lists the seeded funder as a signer but is signed with %s, not with the funder's seeds %s" % (
+                    cpi["ix"], cpi["seeds"], want_f)
     # seeds used to sign the creation
     if p["seeded"]:
         bump = p["findt"][1] if p["seeded"] == 1 else p["tbump"]
